@@ -369,6 +369,7 @@ pub fn eval_case(o: &mut Outcome, rt: &tokio::runtime::Runtime, case: &Case, onl
             St::Nts(m) => m.iter().filter(|(_, rf)| **rf == 0).map(|(d, _)| d.as_str()).collect(),
             _ => Vec::new(),
         };
+        let strategy_key = fw::hash64(format!("{topo_hash}:{}", st.to_json()).as_bytes());
         for &token in &case.tokens {
             if only.is_some_and(|(ok, ot)| ok != k || ot != token) {
                 continue;
@@ -387,8 +388,9 @@ pub fn eval_case(o: &mut Outcome, rt: &tokio::runtime::Runtime, case: &Case, onl
                 } else {
                     "path:unlisted-next-to-precomputed"
                 });
-                let key = fw::hash64(format!("{topo_hash}:{}:{token}:{path}", st.to_json()).as_bytes());
-                o.case(key, !want.is_empty());
+                // a case = one (ring, strategy) pair with all its tokens and both locators;
+                // every single (token, locator) query counts as an evaluation
+                o.case(strategy_key, !want.is_empty());
                 let all = match views(loc, token, &strategy, None) {
                     Ok(v) => v,
                     Err(p) => {
@@ -591,7 +593,7 @@ pub fn run(ctx: &Ctx) -> Outcome {
     }
     model_selftest();
     let workers = ctx.workers;
-    let total = if ctx.miri() { 4 } else { ctx.vol(4_000, 40_000) };
+    let total = if ctx.miri() { 4 } else { ctx.vol(3_000, 40_000) };
     let token_cap = if ctx.miri() { 8 } else if ctx.quick() { 40 } else { 96 };
     let mut out = fw::par(ctx, workers, |w, mut rng| {
         let mut o = Outcome::new();
